@@ -90,6 +90,16 @@ impl From<ArcIri> for RdfTerm {
     }
 }
 
+/// Convert a quad produced by `json_ld`, checking what [`ArcVoc`](crate::vocabulary::ArcVoc) could not check.
+pub fn try_convert_quad(q: RdfQuad) -> Result<Spog<RdfTerm>, crate::JsonLdError> {
+    if let Term::Literal(lit) = &q.2 {
+        if let Type::LangString(tag) = lit.type_() {
+            sophia_api::term::LanguageTag::new(tag.as_str())?;
+        }
+    }
+    Ok(convert_quad(q))
+}
+
 pub fn convert_quad(q: RdfQuad) -> Spog<RdfTerm> {
     (
         [RdfTerm::from(q.0), RdfTerm::from(q.1), RdfTerm::from(q.2)],
